@@ -651,9 +651,28 @@ type vp9Call struct {
 func vp9RtCase(x *Ctx, mk func(c *Case) (flex bool, init int, calls []vp9Call)) {
 	x.Case(func(c *Case) {
 		flex, init, calls := mk(c)
-		c.I.Bool(flex).Nat(init).Nat(len(calls))
-		for _, cl := range calls {
-			c.I.Nat(cl.MTU).OBytes(cl.Frame)
+		// FlexibleMode is a public field: in a quarter of the histories of two or more frames the
+		// caller sets it by hand between frames (an encoder reconfigured on the fly), so that the
+		// mode changes at least once, before key and non-key frames alike.  Every frame is judged in
+		// the mode its call was made in; the running picture id counts frames in whichever mode.
+		flags := make([]bool, len(calls))
+		for j := range flags {
+			flags[j] = flex
+		}
+		if len(calls) >= 2 && c.R.Chance(1, 4) {
+			at := c.R.Range(1, len(calls)-1) // the first change
+			for j := at; j < len(calls); j++ {
+				if j == at || c.R.Chance(1, 3) {
+					flags[j] = !flags[j-1]
+				} else {
+					flags[j] = flags[j-1]
+				}
+			}
+			c.Tag("FlexibleMode-set-by-hand")
+		}
+		c.I.Nat(init).Nat(len(calls))
+		for j, cl := range calls {
+			c.I.Bool(flags[j]).Nat(cl.MTU).OBytes(cl.Frame)
 			cl.Hdr.write(&c.I)
 		}
 		pay := &codecs.VP9Payloader{FlexibleMode: flex, InitialPictureIDFn: func() uint16 { return uint16(init) }}
@@ -666,8 +685,9 @@ func vp9RtCase(x *Ctx, mk func(c *Case) (flex bool, init int, calls []vp9Call)) 
 		nontrivial := false
 		// payload the whole history first, read it afterwards (see vp8RtCase)
 		all := make([][][]byte, 0, len(calls))
-		for _, cl := range calls {
+		for j, cl := range calls {
 			var frags [][]byte
+			pay.FlexibleMode = flags[j]
 			// the frame is handed over exactly sized or as a window of a larger array (payWindow)
 			_, in := payWindow(cl.Frame, cl.MTU)
 			if try(func() { frags = pay.Payload(uint16(cl.MTU), in) }) {
